@@ -100,6 +100,12 @@ class CrossRow:
                 return frozenset({"val"})
             if k in ("const", "param", "global", "lambda", "closure", "unknown"):
                 return frozenset()
+            if k == "elem" and t[1][0] == "call" and t[1][1][0] == "attr" and t[1][1][2] == "unique" and not t[1][2]:
+                # a loop over the distinct values of an identifier column (for state in frame.postal_code.unique()): the loop variable is a
+                # key, not a count; what is done per key is judged where it is done (the closure form of this loop was never seen as a flow)
+                cr_ = ir.column_ref(t[1][1][1])
+                if cr_ is not None and not partial_name(("const", cr_[1])):
+                    return frozenset()
             if k == "sub":
                 base, idx = t[1], t[2]
                 if idx[0] in ("const", "fstr", "list") and partial_name(idx) and has_n(base):
